@@ -1,6 +1,8 @@
 """C12 - aspect-preserving viewBox placement fits or fills and honours alignment.
 
-ViewBoxFit.tla is the exact rational model; MC_ViewBoxFit checks on the whole grid (vw, vh in
+ViewBoxFit.tla is the exact rational model; ViewBoxFitProofs proves with TLAPS, for all positive
+integer sizes, that meet lies inside the target and touches it, slice covers it and touches it, and
+both keep the viewBox's aspect; MC_ViewBoxFit checks on the whole grid (vw, vh in
 1..12, dx, dy in {1,2,3,5,8,13,21,100,255,256,600}, alignments in quarters: 435 600 cases) that the
 result has the viewBox aspect, meet is inside and touches, slice covers and touches, and the slack
 is split by the alignment fraction.  TV: the real AspectMeet / AspectSlice / Size are called on that
@@ -17,6 +19,9 @@ def run(ctx):
     quick = ctx.tier == "quick"
     ctx.build_harness()
     ctx.tlc_must_pass("MC_ViewBoxFit", "MC_ViewBoxFit", timeout=600)
+    # unbounded: for ALL positive integer sizes meet lies inside and touches, slice covers and touches, both keep the
+    # viewBox's aspect (TLAPS, 33 obligations)
+    ctx.tlapm_must_prove("ViewBoxFitProofs")
     p, _ = ctx.run_harness(["drive-c12", "-out", ctx.tmp, "-shards", "16", "-n", str(40000 if quick else 435600)], timeout=3000)
     summ = deccheck.summary_of(p)
     files = sorted(glob.glob(os.path.join(ctx.tmp, "c12.*.ndjson")))
